@@ -141,6 +141,21 @@ pub mod tstd {
     /// the value left behind is `T::default()`, about which nothing is assumed
     pub assume_specification<T: Default>[core::mem::take::<T>](dest: &mut T) -> (r: T)
         ensures r == *old(dest);
+    #[verifier::external_type_specification]
+    #[verifier::external_body]
+    pub struct ExSplitWhitespace<'a>(core::str::SplitWhitespace<'a>);
+    #[verifier::external_type_specification]
+    #[verifier::external_body]
+    pub struct ExParseIntError(core::num::ParseIntError);
+    #[verifier::external_type_specification]
+    #[verifier::external_body]
+    pub struct ExParseFloatError(core::num::ParseFloatError);
+    /// tokens still to come (a measure for termination; the tokens themselves are uninterpreted)
+    pub uninterp spec fn sw_remaining(it: core::str::SplitWhitespace<'_>) -> nat;
+    pub assume_specification<'a>[str::split_whitespace](s: &'a str) -> (r: core::str::SplitWhitespace<'a>)
+        ensures sw_remaining(r) <= usize::MAX;      // a string in memory has fewer than 2^64 tokens
+    pub assume_specification<'a>[<core::str::SplitWhitespace<'a> as Iterator>::next](it: &mut core::str::SplitWhitespace<'a>) -> (r: Option<&'a str>)
+        ensures r.is_some() ==> sw_remaining(*final(it)) < sw_remaining(*old(it)), sw_remaining(*final(it)) <= sw_remaining(*old(it));
     /// std slice::sort: "sorts the slice ... stable"; the result is an uninterpreted function of the input with, for i32, the facts below
     pub uninterp spec fn slice_sorted<T>(s: Seq<T>) -> Seq<T>;
     pub assume_specification<T: Ord>[<[T]>::sort](s: &mut [T])
@@ -296,6 +311,8 @@ pub mod spec {
     pub open spec fn seq_f32(v: &Vec<f32>) -> Seq<f32> { v@ }
     pub open spec fn seq_i32(v: &Vec<i32>) -> Seq<i32> { v@ }
     pub open spec fn seq_bool(v: &Vec<bool>) -> Seq<bool> { v@ }
+    /// the same for an integer local whose type is only inferred later
+    pub open spec fn of_usize(x: usize) -> usize { x }
     /// element i of the documented sine wave A*sin(2*pi*x*i + phi), with the f32 operations in the order the formula is written
     pub open spec fn sine_elem(a: f32, x: f32, phi: f32, i: usize) -> f32 {
         f32_mul(a, f_sin(f32_add(f32_mul(f32_mul(f32_mul(2.0f32, f_pi()), x), usize_to_f32(i)), phi)))
@@ -322,6 +339,27 @@ pub mod spec {
             f32_le(0.0f32, f_max_value()), f32_le(0.0f32, f_infinity()), f32_le(f_min_value(), 0.0f32), f32_le(f_neg_infinity(), 0.0f32);
     /// f32::clamp as std implements it: NaN passes through; panics unless min <= max (which excludes NaN bounds)
     pub open spec fn f_clamp(x: f32, lo: f32, hi: f32) -> f32 { if f32_lt(x, lo) { lo } else if f32_gt(x, hi) { hi } else { x } }
+    // R15: str operations of the parser.  Their results are uninterpreted; the one fact carried is the one the slices need:
+    // after `s.starts_with(p)` with an ASCII p, byte offset |p| lies inside s on a character boundary (so `&s[|p|..]` cannot panic).
+    pub uninterp spec fn str_tail_ok(s: Seq<char>, n: nat) -> bool;
+    #[verifier::external_body]
+    pub fn starts_with_lit(s: &str, p: &str) -> (r: bool)
+        requires p.is_ascii(),
+        ensures r ==> str_tail_ok(s@, p@.len()),
+    { s.starts_with(p) }
+    #[verifier::external_body]
+    pub fn str_tail<'a>(s: &'a str, n: usize) -> (r: &'a str)
+        requires str_tail_ok(s@, n as nat),
+    { &s[n..] }
+    #[verifier::external_body]
+    pub fn strip_suffix_lit<'a>(s: &'a str, p: &str) -> (r: Option<&'a str>) { s.strip_suffix(p) }
+    /// the pieces of `s.split(p)`, collected (split is lazy but pure: the same pieces in the same order)
+    #[verifier::external_body]
+    pub fn split_lit<'a>(s: &'a str, p: &str) -> (r: Vec<&'a str>) { s.split(p).collect() }
+    #[verifier::external_body]
+    pub fn parse_i32(s: &String) -> (r: Result<i32, core::num::ParseIntError>) { s.parse::<i32>() }
+    #[verifier::external_body]
+    pub fn parse_f32(s: &String) -> (r: Result<f32, core::num::ParseFloatError>) { s.parse::<f32>() }
     // R14: the additive identity std's `impl Sum for f32` starts from (0.0 or -0.0 depending on the toolchain): the wrapper's body is the empty sum itself
     pub uninterp spec fn f_sum_identity() -> f32;
     #[verifier::external_body]
